@@ -147,7 +147,9 @@ class Printer(PrinterBase):
         return f"{typ} {var} = {value};"
 
     def make_constant(self, like, value):
-        return f"ScalarLike({like.ref}, {value})"
+        # print the like-operand through tostring so that its
+        # variable is declared before this use
+        return f"ScalarLike({self.tostring(like)}, {value})"
 
     def make_argument(self, arg):
         typ = self.get_type(arg)
